@@ -632,3 +632,155 @@ func ruleT9(rule string, funcs ...[2]string) func(*Ctx) {
 		}
 	}
 }
+
+// ---------- T7 / T8: keyword and token-kind tables of lexer and parser agree (C03) ----------
+
+func ruleT7T8(c *Ctx) {
+	pk := c.P.ByRel["internal/parser"]
+	info := pk.TypesInfo
+	// T7: lexer keyword set
+	lexKeys := map[string]bool{}
+	for _, f := range pk.Syntax {
+		ast.Inspect(f, func(x ast.Node) bool {
+			vs, ok := x.(*ast.ValueSpec)
+			if !ok {
+				return true
+			}
+			for _, v := range vs.Values {
+				cl, ok := v.(*ast.CompositeLit)
+				if !ok {
+					continue
+				}
+				if t := info.TypeOf(cl); t != nil {
+					if m, ok := t.Underlying().(*types.Map); ok && types.TypeString(m.Key(), nil) == "string" && types.TypeString(m.Elem(), nil) == "struct{}" {
+						for _, el := range cl.Elts {
+							if kv, ok := el.(*ast.KeyValueExpr); ok {
+								if s, ok := stringConst(info, kv.Key); ok {
+									lexKeys[s] = true
+								}
+							}
+						}
+					}
+				}
+			}
+			return true
+		})
+	}
+	c.census("T7", "directive keywords recognised by the lexer", len(lexKeys), 6)
+	// parser: the switch on the directive word
+	parseKeys := map[string]token.Pos{}
+	var dirFd *ast.FuncDecl
+	for _, f := range pk.Syntax {
+		for _, d := range f.Decls {
+			fd, ok := d.(*ast.FuncDecl)
+			if !ok || fd.Body == nil || recvTypeName(fd) != "Parser" {
+				continue
+			}
+			ast.Inspect(fd.Body, func(x ast.Node) bool {
+				sw, ok := x.(*ast.SwitchStmt)
+				if !ok || sw.Tag == nil {
+					return true
+				}
+				if t := info.TypeOf(sw.Tag); t == nil || types.TypeString(t, nil) != "string" {
+					return true
+				}
+				n := 0
+				for _, cl := range sw.Body.List {
+					for _, e := range cl.(*ast.CaseClause).List {
+						if s, ok := stringConst(info, e); ok && lexKeys[s] {
+							n++
+						}
+					}
+				}
+				if n >= 3 {
+					dirFd = fd
+					for _, cl := range sw.Body.List {
+						for _, e := range cl.(*ast.CaseClause).List {
+							if s, ok := stringConst(info, e); ok {
+								parseKeys[s] = e.Pos()
+							}
+						}
+					}
+				}
+				return true
+			})
+		}
+	}
+	if dirFd == nil {
+		c.undecided("T7", "parser.Parser", "directive dispatch", token.NoPos, "no switch over directive keywords found in the parser")
+		return
+	}
+	dname := c.P.declName(dirFd)
+	var ks []string
+	for k := range parseKeys {
+		ks = append(ks, k)
+	}
+	sort.Strings(ks)
+	for _, k := range ks {
+		c.check(lexKeys[k], "T7", dname, "directive `"+k+"` handled by the parser is a lexer keyword", parseKeys[k],
+			"the lexer emits a Directive token for it", "the parser has a case for the directive `"+k+"` but the lexer's keyword set does not contain it: the word is lexed as text/account and the directive never reaches its parser")
+	}
+	// the directives the property names must be handled
+	for _, k := range []string{"account", "commodity", "include", "P", "Y", "D"} {
+		_, ok := parseKeys[k]
+		c.check(ok, "T7", dname, "supported directive `"+k+"` has a parser case", dirFd.Pos(), "handled", "the supported directive `"+k+"` has no case in the parser's directive dispatch: it is skipped silently and its payload is lost")
+	}
+	c.census("T7", "directive keywords handled by the parser", len(parseKeys), 6)
+
+	// T8: token kinds emitted by the lexer are kinds some parser branch tests for
+	emitted := map[string]token.Pos{}
+	tested := map[string]bool{}
+	for _, f := range pk.Syntax {
+		for _, d := range f.Decls {
+			fd, ok := d.(*ast.FuncDecl)
+			if !ok || fd.Body == nil {
+				continue
+			}
+			switch recvTypeName(fd) {
+			case "Lexer":
+				ast.Inspect(fd.Body, func(x ast.Node) bool {
+					switch n := x.(type) {
+					case *ast.CompositeLit:
+						if typeHasSuffix(info.TypeOf(n), "parser.Token") {
+							for _, el := range n.Elts {
+								if kv, ok := el.(*ast.KeyValueExpr); ok && identOf(kv.Key).Name == "Type" {
+									if id := identOf(kv.Value); strings.HasPrefix(id.Name, "Token") {
+										emitted[id.Name] = kv.Pos()
+									}
+								}
+							}
+						}
+					case *ast.CallExpr:
+						for _, a := range n.Args {
+							if id, ok := ast.Unparen(a).(*ast.Ident); ok && strings.HasPrefix(id.Name, "Token") {
+								if cn, ok := info.Uses[id].(*types.Const); ok && strings.HasSuffix(types.TypeString(cn.Type(), nil), "parser.TokenType") {
+									emitted[id.Name] = a.Pos()
+								}
+							}
+						}
+					}
+					return true
+				})
+			case "Parser":
+				ast.Inspect(fd.Body, func(x ast.Node) bool {
+					if id, ok := x.(*ast.Ident); ok && strings.HasPrefix(id.Name, "Token") {
+						if cn, ok := info.Uses[id].(*types.Const); ok && strings.HasSuffix(types.TypeString(cn.Type(), nil), "parser.TokenType") {
+							tested[id.Name] = true
+						}
+					}
+					return true
+				})
+			}
+		}
+	}
+	var es []string
+	for k := range emitted {
+		es = append(es, k)
+	}
+	sort.Strings(es)
+	for _, k := range es {
+		c.check(tested[k], "T8", "parser.Parser", "token kind "+k+" emitted by the lexer is consumed by some parser branch", emitted[k],
+			"the parser refers to "+k, "the lexer emits "+k+" but no parser branch ever tests for it: such a token can only fall into the error path, so a construct the lexer recognises produces a syntax error")
+	}
+	c.census("T8", "token kinds emitted by the lexer", len(es), 15)
+}
